@@ -41,8 +41,10 @@ SYN = [
     ('case:there', r'\bThere is\b', ['there is', 'THERE is']),
     ('case:it', r'\bIt is (?=prohibited|required|preferred)', ['it is ', 'IT is ']),
     ('comma:whenever', r'(?<![AP]M)(?<!\d), whenever there is', [' whenever there is']),
-    ('comma:where', r', where ', [' where ']),
-    ('neg:isnot', r'\bis not (?=[a-z]+ed\b|[a-z]+n\b)', ['are not ', "aren't "]),
+    # the optional comma is the one before a where-COMPARISON (', where X is …'), not the 'where' of an aggregate clause
+    ('comma:where', r', where (?=[A-Z][A-Za-z0-9_]* is )', [' where ']),
+    # verb negations after a subject; 'there is not a …' is another construct, and the next word must be a participle, not 'an'
+    ('neg:isnot', r'(?<!there )\bis not (?=[a-z]{2,}ed\b|[a-z]{3,}n\b)', ['are not ', "aren't "]),
     ('tel:holds', r'\bholds\b', ['hold']),
     ('tel:triggers', r'\btriggers\b', ['trigger']),
     ('tel:implies', r'\bimplies\b', ['imply']),
